@@ -8,7 +8,7 @@ import tempfile
 import traceback
 
 from harness import core, fr
-from harness.core import gq, gstr, glist
+from harness.core import gq, gstr, glist, gbool
 
 HEADER = """From FrameModel Require Import Num.QcTac Geometry.Rect Cases.Cmp Cases.CmpC01
   Die.Boundaries Die.Cells Die.Cover Die.DieModel Die.DieInput.
@@ -33,6 +33,10 @@ ASSUMPTIONS = [
     "read_yaml is modelled as repaired by fixes/C19-read-yaml-stream.diff (the original isinstance(stream, typing.TextIO) refused every "
     "real stream: C01/valid-rejected-stream) and fixes/C19-read-yaml-text.diff (a str with a line break is a YAML text even without ': ')",
     "non-ASCII digits / spaces in the string form and exponents beyond binary64 range are not generated",
+    "object reuse: that an argument object is left untouched is not demanded as such (the property does not say it): every further "
+    "construction on the same objects is judged against the model on the objects as the user made them (DieInput.session), and when "
+    "the harness sees an argument modified it constructs twice more (with / without the netlist); an open stream is rewound "
+    "(seek(0)) by the harness between uses, a stream found closed is opened again",
 ]
 
 TAGS = ["#"] * 10 + ["BRAM", "DSP", "reg1", "_x", "a_9", "Z", "BRAM", "DSP",
@@ -266,9 +270,15 @@ def gen_case(rng, stream=None):
             sizes.append(g)
             left -= g
         case["fixedgroups"] = sizes
-    # history: the same netlist object / the same description used before, in the same process
-    if rng.random() < 0.2:
-        case["warm"] = rng.choice(["twice", "twice", "no-netlist-first", "bare-first"])
+    # history: the very same objects (description dict / str / file / rewound stream, Netlist object) handed to several
+    # constructions in one process, with and without the netlist, in any order; EVERY construction is judged
+    x = rng.random()
+    if x < 0.27:
+        case["reuse"] = [rng.choice("nb") for _ in range(rng.choice([1, 1, 1, 2, 2, 3]))]
+        if rng.random() < 0.15:
+            case["warm"] = "bare-first"
+    elif x < 0.32:
+        case["warm"] = "bare-first"
     return case
 
 
@@ -670,72 +680,113 @@ def run_impl(case):
             # strings that are neither '<W>x<H>' nor YAML text are opened as files: run in an empty directory
             tmp = tempfile.mkdtemp(prefix="verif-c01-")
             os.chdir(tmp)
+        state = {}
+
         def make_stream():
+            """the object handed to Die: created ONCE per case and handed to every construction of the history (a dict is
+            the same dict, a str the same str, a file the same file, an open stream the same stream rewound by its owner)"""
+            if "obj" in state:
+                obj = state["obj"]
+                if form == "stream":
+                    try:
+                        obj.seek(0)
+                    except ValueError:                      # closed by a reader: the owner opens it again
+                        state.pop("obj")
+                        return make_stream()
+                return obj
             if form == "string":
                 if case.get("shadowfile"):
                     with open(txt, "w") as f:
                         f.write(case["shadowfile"])
-                return txt
-            if form == "text":
-                return txt
-            if form == "file":
+                obj = txt
+            elif form == "text":
+                obj = txt
+            elif form == "file":
                 if case.get("textdefect") != "missing-file":
                     with open(case["fname"], "w") as f:
                         f.write(txt)
-                return case["fname"]
-            if form == "stream":
+                obj = case["fname"]
+            elif form == "stream":
                 if case["handle"] == "file":
                     with open("stream.yaml", "w") as f:
                         f.write(txt)
                     handles.append(open("stream.yaml"))
-                    return handles[-1]
-                return io.StringIO(txt)
-            return py_tree(case["tree"])
+                    obj = handles[-1]
+                else:
+                    obj = io.StringIO(txt)
+            else:
+                obj = py_tree(case["tree"])
+                state["copy"] = repr(py_tree(case["tree"]))
+            state["obj"] = obj
+            return obj
 
-        # history: earlier constructions in the same process (same netlist object, same description); what the
-        # judged construction reports must not depend on them
+        w, h = tree.get("width"), tree.get("height")
+        ok = all(isinstance(v, (int, float)) and not isinstance(v, bool) for v in (w, h))
+        fixed_in = [fr.rect_obs(r) for r in netlist.fixed_rectangles()] if netlist is not None else []
+
+        def construct(with_netlist):
+            """one construction on the shared objects, observed"""
+            net = netlist if with_netlist else None
+            stream = make_stream()
+            obs = {}
+            try:
+                die = Die(stream, net) if net is not None else Die(stream)
+                obs["v"] = "accept"
+                obs["ground"] = [fr.rect_obs(r) for r in die.ground_regions]
+                obs["spec"] = [fr.rect_obs(r) for r in die.specialized_regions]
+                obs["block"] = [fr.rect_obs(r) for r in die.blockages]
+                obs["fixed"] = [fr.rect_obs(r) for r in die.fixed_regions]
+                obs["x"] = list(getattr(die, "_x", []))
+                obs["y"] = list(getattr(die, "_y", []))
+                obs["WH"] = [die.width, die.height]
+            except AssertionError as e:
+                obs["v"] = "reject"
+                obs["cls"] = classify_assert(e)
+                obs["msg"] = str(e)[:200]
+            except Exception as e:
+                if form in ("dict", "single"):
+                    raise
+                # a str / stream that cannot be read: OSError, the YAML loader's errors
+                frames = [f.name for f in traceback.extract_tb(e.__traceback__)]
+                obs["v"] = "raise"
+                obs["exc"] = type(e).__name__
+                obs["in_reader"] = "read_yaml" in frames
+                obs["msg"] = str(e)[:200]
+            # the fixed rectangles the netlist had BEFORE any construction: what the user handed over
+            obs["fixed_in"] = fixed_in if net is not None else []
+            obs["eps"] = Rectangle.distance_epsilon() if Rectangle.epsilon_defined() else 0.0
+            obs["aeps"] = Rectangle.area_epsilon() if Rectangle.epsilon_defined() else 0.0
+            obs["deps"] = min(w, h) * 10e-12 if ok else 0.0
+            obs["tin"] = max(w, h) * 10e-12 if ok else 0.0
+            return obs
+
+        # history: earlier constructions in the same process; legacy 'warm' steps are not judged (fresh objects in
+        # cases recorded before 'reuse' existed), 'reuse' steps are constructions on the SAME objects and are judged
         warm = case.get("warm")
         try:
             if warm == "twice":
-                Die(make_stream(), netlist) if netlist is not None else Die(make_stream())
+                construct(True)
             elif warm == "no-netlist-first":
-                Die(make_stream())
-            elif warm == "bare-first" and isinstance(tree.get("width"), (int, float)) and isinstance(tree.get("height"), (int, float)):
+                construct(False)
+            elif warm == "bare-first" and ok:
                 Die({"width": tree["width"], "height": tree["height"]}, netlist)
         except Exception:
             pass
-        stream = make_stream()
-        obs = {}
-        w, h = tree.get("width"), tree.get("height")
-        try:
-            die = Die(stream, netlist) if netlist is not None else Die(stream)
-            obs["v"] = "accept"
-            obs["ground"] = [fr.rect_obs(r) for r in die.ground_regions]
-            obs["spec"] = [fr.rect_obs(r) for r in die.specialized_regions]
-            obs["block"] = [fr.rect_obs(r) for r in die.blockages]
-            obs["fixed"] = [fr.rect_obs(r) for r in die.fixed_regions]
-            obs["x"] = list(getattr(die, "_x", []))
-            obs["y"] = list(getattr(die, "_y", []))
-            obs["WH"] = [die.width, die.height]
-        except AssertionError as e:
-            obs["v"] = "reject"
-            obs["cls"] = classify_assert(e)
-            obs["msg"] = str(e)[:200]
-        except Exception as e:
-            if form in ("dict", "single"):
-                raise
-            # a str / stream that cannot be read: OSError, the YAML loader's errors
-            frames = [f.name for f in traceback.extract_tb(e.__traceback__)]
-            obs["v"] = "raise"
-            obs["exc"] = type(e).__name__
-            obs["in_reader"] = "read_yaml" in frames
-            obs["msg"] = str(e)[:200]
-        obs["fixed_in"] = [fr.rect_obs(r) for r in netlist.fixed_rectangles()] if netlist is not None else []
-        obs["eps"] = Rectangle.distance_epsilon() if Rectangle.epsilon_defined() else 0.0
-        obs["aeps"] = Rectangle.area_epsilon() if Rectangle.epsilon_defined() else 0.0
-        ok = all(isinstance(v, (int, float)) and not isinstance(v, bool) for v in (w, h))
-        obs["deps"] = min(w, h) * 10e-12 if ok else 0.0
-        obs["tin"] = max(w, h) * 10e-12 if ok else 0.0
+        steps = []
+        for st in case.get("reuse") or []:
+            with_net = (st == "n")
+            steps.append(dict(construct(with_net), step=st))
+        obs = construct(True)
+        mutated = "copy" in state and repr(state.get("obj")) != state["copy"]
+        if netlist is not None and [fr.rect_obs(r) for r in netlist.fixed_rectangles()] != fixed_in:
+            mutated = True
+        if case.get("reuse"):
+            if mutated:
+                # an argument was modified by a construction: it is used once more in both ways (judged like the others)
+                for st in "bn":
+                    steps.append(dict(construct(st == "n"), step=st, after_mutation=True))
+            obs["steps"] = steps
+            obs["mutated"] = mutated
         return obs
     finally:
         for hd in handles:
@@ -813,7 +864,19 @@ def to_coq(case, obs):
     if case["stream"] == "decimal":
         return "true"                     # oracle only: the theorems speak about exact arithmetic
     inp, files, loads = model_input(case)
-    fx = glist([fr.grect(d) for d in obs["fixed_in"]])
+    if obs.get("steps") is None:
+        fx = glist([fr.grect(d) for d in obs["fixed_in"]])
+        return step_to_coq(obs, files, loads, inp, fx)
+    # the same objects handed to several constructions: the model's session (DieInput.session) says what each
+    # construction sees - the objects as the user made them - and each observation is compared on that
+    allobs = obs["steps"] + [dict(obs, step="n")]
+    fx = glist([fr.grect(d) for d in next((o["fixed_in"] for o in allobs if o["step"] == "n"), [])])
+    flags = glist([gbool(o["step"] == "n") for o in allobs])
+    chks = glist(["(fun i fx => " + step_to_coq(o, files, loads, "i", "fx") + ")" for o in allobs])
+    return f"agree_steps (session (fun i fx => (i, fx)) (mkObjs {inp} {fx}) {flags}) {chks}"
+
+
+def step_to_coq(obs, files, loads, inp, fx):
     pars = f"{gq(obs['eps'])} {gq(obs['aeps'])} {gq(obs['deps'])} {gq(obs['tin'])}"
     world = f"{files} {loads}"
     if obs["v"] == "raise":
@@ -877,8 +940,25 @@ def ovl(a, b):
 
 
 def oracle(case, obs):
+    """every construction of the case is judged: the constructions on the reused objects first (in the order they were
+    made), then the last one; a construction without the netlist is judged as the description alone"""
     if case["stream"] == "sd":
         return None                       # string_die alone: correspondence only
+    steps = obs.get("steps") or []
+    for k, o in enumerate(steps + [obs]):
+        sub = case if o.get("step", "n") == "n" else dict(case, fixed=[], hard=[])
+        why = oracle_one(sub, o)
+        if why:
+            if not steps:
+                return why
+            net = bool(case.get("fixed") or case.get("hard"))
+            seq = ", ".join("Die(d, netlist)" if net and x.get("step", "n") == "n" else "Die(d)" for x in (steps + [obs])[:k + 1])
+            note = " [an argument object was modified by a construction]" if obs.get("mutated") else ""
+            return f"construction {k + 1} of {seq} on the same objects: {why}{note}"
+    return None
+
+
+def oracle_one(case, obs):
     tree = case["tree"]
     dec = case["stream"] == "decimal"
     if not well_formed(tree) or case.get("textdefect") or case.get("raw") is not None:
@@ -992,6 +1072,9 @@ def shrink(case):
         yield dict(case, fixed=case["fixed"][:i] + case["fixed"][i + 1:], fixedgroups=None)
     if case.get("warm"):
         yield dict(case, warm=None)
+    ru = case.get("reuse") or []
+    for i in range(len(ru)):
+        yield dict(case, reuse=ru[:i] + ru[i + 1:])
     if case.get("hard"):
         yield dict(case, hard=[])
     if case["form"] in ("text", "file", "stream") and not case.get("textdefect") and case["render"]["style"] != "block":
@@ -1029,8 +1112,10 @@ def run(ctx, out, replay=None):
                 "0.01, die up to 1e5; direct oracle only), malformed (one defect injected: description, netlist rectangles, or the text "
                 "itself), badstring ('<W>x<H>' broken in one place), sd (string_die called on random strings); input forms dict / flat "
                 "single region / '<W>x<H>' string (all float() spellings) / YAML text (4 layouts, number spellings, comments, > 4096 "
-                "characters) / file name / open stream, each with and without netlist; a fifth of the cases after earlier constructions "
-                "in the same process; non-trivial = at least two regions or a refused input; distinct by canonical hash")
+                "characters) / file name / open stream, each with and without netlist; a third of the cases are histories on the SAME "
+                "objects (the description dict / str / file / rewound stream and the Netlist object handed to 2-4 constructions, with "
+                "and without the netlist in any order, every construction judged; two more constructions when an argument was "
+                "modified) or follow a bare die built with the same netlist; non-trivial = at least two regions or a refused input; distinct by canonical hash")
     cases = []
     if replay and "case" in replay:
         cases.append(fr.unjson(replay["case"]))
